@@ -264,8 +264,8 @@ def gen_symbols():
 def phases(tier):
     quick = tier == 'quick'
     return [
-        Phase('models', check_model, strategy=strat_model, examples=800 if quick else 20000),
-        Phase('linkers', check_linker, strategy=strat_linker, examples=300 if quick else 6000),
+        Phase('models', check_model, strategy=strat_model, examples=1600 if quick else 20000),
+        Phase('linkers', check_linker, strategy=strat_linker, examples=600 if quick else 6000),
         Phase('symbol-lists-enumerated', check_symbols, gen=gen_symbols(), exhaustive=True),
-        Phase('symbol-lists', check_symbols, strategy=strat_symbols, examples=1000 if quick else 30000),
+        Phase('symbol-lists', check_symbols, strategy=strat_symbols, examples=2500 if quick else 30000),
     ]
